@@ -34,8 +34,9 @@ func init() {
 			}
 			return n
 		},
-		Run:      runC03,
-		Required: []string{"messages_delivered", "streams"},
+		Run:          runC03,
+		BeatTimeoutS: 60,
+		Required:     []string{"messages_delivered", "streams", "streams_ending_with_data_and_eof_in_one_read"},
 		Assumptions: []string{
 			"streams come from internal/wire + internal/zflate (own encoder) and zlib 1.2.13 through python3; when python3 is absent only the Go inflater vouches for own-encoder streams (evidence counter zlib_streams=0)",
 		},
@@ -110,7 +111,13 @@ func execRead(out *core.Out, id string, st *Stream, exp []Ev, ex rdExec, r *gen.
 		out.Violate(id+":"+sig, what, map[string]interface{}{"exec": ex, "stream": st.Summary(), "deflate": st.Desc, "bytes": core.Trunc(st.Bytes, 600)})
 		return false
 	}
-	nc := xport.New(xport.Rechunk(st.Bytes, ex.Chunk, r))
+	chunks := xport.Rechunk(st.Bytes, ex.Chunk, r)
+	if n := len(chunks); n > 0 && len(chunks[n-1].Data) > 0 && len(st.Bytes)%4 == 1 {
+		// an io.Reader may return the final bytes together with io.EOF
+		chunks[n-1].Err = io.EOF
+		out.Count("streams_ending_with_data_and_eof_in_one_read", 1)
+	}
+	nc := xport.New(chunks)
 	c := ws.VerifNewConn(nc, ex.Server, ex.RB, 256, nil, nil, ex.Comp)
 	rd := &Reader{C: c}
 	rd.InstallRecordingHandlers()
